@@ -454,6 +454,11 @@ func propC14(w *World, r *Report) {
 											if ta, ok := rf.(*ssa.TypeAssert); ok {
 												pat = ta.AssertedType
 											}
+											if c2, ok := rf.(*ssa.Call); ok {
+												if cl2 := c2.Call.StaticCallee(); cl2 != nil {
+													pat = assertedType(cl2)
+												}
+											}
 										}
 									}
 									reader[constant.StringVal(kc.Value)] = kv{typ: pat, pos: w.InstrPos(c)}
@@ -487,6 +492,44 @@ func propC14(w *World, r *Report) {
 			reader[constant.StringVal(k.Value)] = kv{typ: at, pos: w.InstrPos(lk)}
 		}
 	}
+	// the decoded values are kept as they are: nothing in the headers package converts an integer to a narrower (or
+	// same-width, other-signedness) type on the way from the decoded block to the getters - a serial number or frame
+	// size that does not fit would silently wrap
+	nConvFns := 0
+	if hp := w.Pkg("headers"); hp != nil {
+		arch := w.Arch
+		if arch == "" {
+			arch = "amd64"
+		}
+		sizes := types.SizesFor("gc", arch)
+		for fn := range w.AllFuncs {
+			if fn.Pkg != hp || len(fn.Blocks) == 0 {
+				continue
+			}
+			nConvFns++
+			for _, b := range fn.Blocks {
+				for _, in := range b.Instrs {
+					cv, ok := in.(*ssa.Convert)
+					if !ok {
+						continue
+					}
+					sb, ok1 := cv.X.Type().Underlying().(*types.Basic)
+					db, ok2 := cv.Type().Underlying().(*types.Basic)
+					if !ok1 || !ok2 || sb.Info()&types.IsInteger == 0 || db.Info()&types.IsInteger == 0 {
+						continue
+					}
+					if _, isConst := cv.X.(*ssa.Const); isConst {
+						continue
+					}
+					sw, dw := sizes.Sizeof(sb), sizes.Sizeof(db)
+					sUns, dUns := sb.Info()&types.IsUnsigned != 0, db.Info()&types.IsUnsigned != 0
+					lossy := dw < sw || (dw == sw && sUns != dUns) || (!sUns && dUns)
+					r.Check(!lossy, "M5", "header values are not narrowed in "+fn.Name()+": "+sb.Name()+" -> "+db.Name(), w.InstrPos(cv), "")
+				}
+			}
+		}
+	}
+	r.Check(nConvFns >= 5, "M5", "functions of the headers package scanned for narrowing conversions", "-", fmt.Sprint(nConvFns))
 	keys := map[string]bool{}
 	for k := range writer {
 		keys[k] = true
